@@ -84,6 +84,8 @@ func vh_vote_step() {
 		// (a) durable before granted, for the very candidate and term
 		vAssert(post.stVoteTerm == req.Term && vBlobEq(post.stVoteCand, cand) && !vBlobIsNil(post.stVoteCand), "C01.vote.granted-is-durable")
 		vAssert(post.term == req.Term && resp.Term == req.Term && post.stTerm == req.Term, "C01.vote.granted-term")
+		vAssert(post.stVoteTerm == req.Term && vBlobEq(post.stVoteCand, cand) && !vBlobIsNil(post.stVoteCand), "C06.vote.granted-is-durable")
+		vAssert(vOr(len(pre.latest) == 0, vHasVoteT(Configuration{Servers: pre.latest}, ServerID(req.ID))), "C07.vote.nonvoter-never-granted")
 		// (ii) voter membership, (iii) leader stickiness
 		vAssert(vOr(len(pre.latest) == 0, vHasVoteT(Configuration{Servers: pre.latest}, ServerID(req.ID))), "C06.vote.granted-only-voter")
 		vAssert(vOr(pre.leaderAddr == "", vOr(pre.leaderAddr == ServerAddress(cand), req.LeadershipTransfer)), "C06.vote.leader-sticky")
